@@ -10,7 +10,7 @@ import json
 from typing import Any, List, Optional, Set
 
 from .. import infra
-from ..data import enumerate_data
+from ..data import enumerate_data, get_at as dc_get, positions as dc_positions, set_at as dc_set
 from ..grammar import gen_types, well_formed
 from ..refmodel.deser import Ctx
 from ..tast import AnyT, short, walk
@@ -89,17 +89,24 @@ def outcome(kind, out):
 
 
 def run_deser(case: dc.Case, rz, label, spec, st, tier):
+    _run_deser(case, rz, label, spec, st, tier, False)
+    if "typeddict" in label:
+        # a TypedDict keeps its additional properties: they are part of the result too
+        _run_deser(case, rz, label, spec, st, tier, True)
+
+
+def _run_deser(case: dc.Case, rz, label, spec, st, tier, ap):
     has_any = any(isinstance(x, AnyT) for x in walk(spec))
-    ctx = case.ctx()
+    ctx = case.ctx(ap, False, "id")
     vectors = list(itertools.product((True, False), (False, True), ("method", "function")))  # no_copy, override, route
     methods = {}
     for nc, ov, route in vectors:
         settings.deserialization.override_dataclass_constructors = ov
         try:
             if route == "method":
-                methods[(nc, ov, route)] = apischema.deserialization_method(rz.tp, no_copy=nc)
+                methods[(nc, ov, route)] = apischema.deserialization_method(rz.tp, no_copy=nc, additional_properties=ap)
             else:
-                methods[(nc, ov, route)] = (lambda nc=nc, ov=ov: (lambda d: _call_function(rz.tp, d, nc, ov)))()
+                methods[(nc, ov, route)] = (lambda nc=nc, ov=ov: (lambda d: _call_function(rz.tp, d, nc, ov, ap)))()
         except Exception:
             st.count("compile_error(C01 reports it)")
             settings.deserialization.override_dataclass_constructors = False
@@ -113,11 +120,21 @@ def run_deser(case: dc.Case, rz, label, spec, st, tier):
         # passing those through unchecked is what such a predicate would ask for), plus Any
         for pname, pt in (("pt_all", lambda cls: cls is Any or getattr(cls, "__module__", "") not in ("builtins", "collections.abc", "typing", "collections")), ("pt_types", mod_classes or {int})):
             try:
-                methods[(nc, False, "method+" + pname)] = apischema.deserialization_method(rz.tp, no_copy=nc, pass_through=pt)
+                methods[(nc, False, "method+" + pname)] = apischema.deserialization_method(rz.tp, no_copy=nc, pass_through=pt, additional_properties=ap)
             except Exception as e:
                 st.violation({"label": label, "type": short(spec), "options": [nc, False, pname], "signature": {"kind": "deser_pass_through_compile", "exc": type(e).__name__, "option": pname, "has_any": has_any}, "what": f"deserialization_method(pass_through={pname}) raised {e!r}"[:300], "source": rz.source})
     ref_key = (True, False, "method")  # library defaults
-    for dev, d in enumerate_data(spec, ctx, k=1, wide=dc.level_of(label) <= 1):
+    def data():
+        for dev, d in enumerate_data(spec, ctx, k=1, wide=dc.level_of(label) <= 1):
+            yield dev, d
+            if ap:
+                # the additional property carrying containers of its own
+                for path in dc_positions(d):
+                    cur = dc_get(d, path)
+                    if isinstance(cur, dict) and cur.get("zz") == 0:
+                        yield dev, dc_set(d, path, dict(cur, zz=[{"k": [1]}]))
+
+    for dev, d in data():
         d0 = copy.deepcopy(d)
         ref = outcome(*dc.run_impl(methods[ref_key], d))
         for key, m in methods.items():
@@ -127,7 +144,7 @@ def run_deser(case: dc.Case, rz, label, spec, st, tier):
             kind, out = dc.run_impl(m, dd)
             oc = outcome(kind, out)
             st.case(dc.shape_of(label), key, oc[0], type(d).__name__)
-            base = {"label": label, "type": short(spec), "options": [nc, ov, route], "datum": repr(d0)[:300]}
+            base = {"label": label, "type": short(spec), "options": [nc, ov, route] + (["additional_properties"] if ap else []), "datum": repr(d0)[:300]}
             if oc != ref:
                 st.violation(
                     dict(
@@ -148,10 +165,10 @@ def run_deser(case: dc.Case, rz, label, spec, st, tier):
                     st.violation(dict(base, signature={"kind": "aliasing_with_no_copy_false", "shape": dc.shape_of(label)}, what=f"no_copy=False result shares a mutable container with the input: {out!r}"[:300], source=rz.source))
 
 
-def _call_function(tp, d, nc, ov):
+def _call_function(tp, d, nc, ov, ap=False):
     settings.deserialization.override_dataclass_constructors = ov
     try:
-        return apischema.deserialize(tp, d, no_copy=nc)
+        return apischema.deserialize(tp, d, no_copy=nc, additional_properties=ap)
     finally:
         settings.deserialization.override_dataclass_constructors = False
 
